@@ -146,7 +146,7 @@ func TestSim(t *testing.T) {
 		root: root, stdout: outF, stderr: errF, stdin: inF,
 		faults: spec.Faults, chunk: spec.Chunk, crashOp: -1, logOps: spec.LogOps,
 		readBytes: map[*os.File]int64{}, wrBytes: map[*os.File]int64{}, names: map[*os.File]string{},
-		wrOpen: map[*os.File]bool{}, chunkRng: map[*os.File]*uint64{}, pipeFds: map[*os.File]int{},
+		wrOpen: map[*os.File]bool{}, chunkRng: map[*os.File]*uint64{}, pipeFds: map[*os.File]int{}, pipeWFds: map[*os.File]int{},
 		fdLimit: spec.FdLimit, tail: spec.Tail,
 	}
 	if spec.CrashOp != nil {
@@ -208,6 +208,9 @@ func TestSim(t *testing.T) {
 			die("scheduler returned nothing")
 		}
 		res.Outcome = oc
+		if s.stalled && oc.Status == "deadlock" {
+			oc.Status = "child-stall"
+		}
 		if oc.Status == "returned" {
 			res.ExitNormal = true
 		} else if oc.Status == "exit" {
